@@ -153,3 +153,42 @@ Theorem C01_constructor_string : forall (O : oracles) (B : backend) (s : str) (u
   exists t, url_str B u = Ok t /\ Forall (fun c => (c < 128)%N) t /\ pct_wf t = true.
 Proof. exact constructor_string_wf. Qed.
 Print Assumptions C01_constructor_string.
+
+(** The authority, for EVERY operation sequence.  [NI u]: the stored authority of [u] is an
+    optional "user[:password]@" made of well-formed userinfo texts ([uok]: pure ASCII, '%'
+    only in upper-case escapes, literal characters within RFC 3986 userinfo - no raw ':' or
+    '@') followed by a host[:port] text without '@', and so are the eagerly stored parts.
+    Established by URL(str) and build(), preserved by all 19 modifiers and join; hence the
+    user and password every reachable URL reports are well-formed and its host has no '@'.
+    The real libraries are oracles of the model; what is assumed of them is the explicit
+    premise [clean_oracles]: the address compressor and the two IDNA encoders never write
+    an '@' and str.lower() keeps '@' as it is (each answer of a run is checked against it
+    by the harness and a contradiction is reported in the evidence). *)
+From Yarl Require Import Proofs.NetlocReach.
+Theorem C01_programs_authority : forall (O : oracles) (B : backend) (p : list instr) (st : list url),
+  clean_oracles O -> Forall auth_instr p -> run_prog O B p [] = Ok st -> Forall NI st.
+Proof. intros O B p st HO A H. exact (programs_NI O B HO p [] st A (Forall_nil _) H). Qed.
+Print Assumptions C01_programs_authority.
+
+Theorem C01_reachable_userinfo : forall (u : url), NI u ->
+  (forall x, raw_user u = Ok x -> uok_opt x) /\ (forall x, raw_password u = Ok x -> uok_opt x)
+  /\ (forall x, raw_host u = Ok x -> noat_opt x).
+Proof. exact reachable_userinfo_ok. Qed.
+Print Assumptions C01_reachable_userinfo.
+
+(** whatever the lazy split of an authority of that shape returns is clean (the step that
+    makes the invariant survive pickling and every modifier that re-assembles the authority) *)
+Theorem C01_split_of_shaped_authority : forall nl a b c d, nl_shape nl -> split_netloc nl = Ok (a, b, c, d) ->
+  uok_opt a /\ uok_opt b /\ noat_opt c.
+Proof. exact split_shape_clean. Qed.
+Print Assumptions C01_split_of_shaped_authority.
+
+(** non-vacuity: the program of C01_programs_example also meets [auth_instr], and the dummy
+    oracles (never consulted with an '@') are clean *)
+Example C01_authority_example : clean_oracles c01_no_oracles /\ Forall auth_instr c01_prog.
+Proof.
+  split.
+  - repeat split; intros; try discriminate; reflexivity.
+  - unfold c01_prog. repeat constructor; intro HH; discriminate HH.
+Qed.
+Print Assumptions C01_authority_example.
